@@ -324,14 +324,20 @@ def rule_G(ctx):
                 out.append((o.fields.get('k'), (p_.fields['E'], p_.fields['N'], p_.fields['U']),
                             (ts.fields['hour'] * 3600 + ts.fields['min'] * 60 + ts.fields['sec'], ts.fields['ms'], ts.fields['day'], ts.fields['year'])))
             return out
-        for what, f, call, want, feat, tol in (('abs_curv', fa, 'computeAbsCurv', want_s, 'abs_curv', tol_s), ('speed', fs, 'estimate_speed', want_v, 'speed', tol_v)):
+        entries = [('abs_curv', fa, 'computeAbsCurv', want_s, 'abs_curv', tol_s, False), ('speed', fs, 'estimate_speed', want_v, 'speed', tol_v, False)]
+        if 'estimate_speed' in ctx.prog.cls('tracklib.core.track.Track').methods:
+            entries.append(('speed', fs, 'estimate_speed', want_v, 'speed', tol_v, True))            # the method of the track (the users' front door)
+        for what, f, call, want, feat, tol, via_track in entries:
             t = build()
             n_cases += 1
             case = {'track': sname, 'positions (E, N, U)': [list(p_) for p_ in pts], 'times (s)': [round(s_ - secs[0], 3) for s_ in secs]}
+            if via_track:
+                case['called as'] = 'track.%s()' % call
+            run_ = (lambda t_: t_.call(call)) if via_track else (lambda t_: fn['__name__'](call)(t_))
             try:
-                res = fn['__name__'](call)(t)
+                res = run_(t)
                 got = t.call('getAnalyticalFeature', feat)
-                fn['__name__'](call)(t)                     # repeated computation on the same track
+                run_(t)                     # repeated computation on the same track
                 again = t.call('getAnalyticalFeature', feat)
                 if isinstance(got, list) and isinstance(again, list) and len(got) == len(again) and not all(close(a_, b_) for a_, b_ in zip(got, again)):
                     found.setdefault((what, 'repeat'), (f, 'computing %s a second time on the same track gives the same values' % what,
